@@ -415,7 +415,12 @@ where
 
     #[inline]
     fn argument(self) -> Self::RealField {
-        Self::zero()
+        // a real number: 0 for non-negative values, pi for negative ones (as for f32 / f64)
+        if self.re >= T::zero() {
+            Self::zero()
+        } else {
+            Self::from_re(<T as FloatConst>::PI())
+        }
     }
 
     #[inline]
